@@ -292,6 +292,16 @@ Fixpoint expect (pids : list Z) (pend : Z -> list DemuxerData) (evs : list ev) :
 
 Definition no_pend : Z -> list DemuxerData := fun _ => [].
 
+(* the data delivered while the packets evs are read (nothing of the end-of-stream drain), and what is open afterwards *)
+Fixpoint delivered (pend : Z -> list DemuxerData) (evs : list ev) : list DemuxerData * (Z -> list DemuxerData) :=
+  match evs with
+  | [] => ([], pend)
+  | EFill _ :: r => delivered pend r
+  | EPkt x u k n p :: r =>
+      let '(o, pend1) := ev_out pend x u k n p in
+      let '(o2, pend2) := delivered pend1 r in (o ++ o2, pend2)
+  end.
+
 Definition expected (rs : ref_stream) : list DemuxerData := expect (map fst (rs_pids rs)) no_pend (rs_events rs).
 
 (* per PID: its units, each once, in order *)
